@@ -156,7 +156,8 @@ func buildQuery(o *Obligation, extra []string) string {
 	consts := map[string]*Sort{}
 	funs := map[string]sig{}
 	all := append([]*Term{o.Goal}, o.Facts...)
-	collectSyms(all, consts, funs)
+	unfolded := unfoldRec(all)
+	collectSyms(append(append([]*Term(nil), all...), unfolded...), consts, funs)
 	for _, n := range sortedKeys(funs) {
 		if th.Declared[n] {
 			continue
@@ -180,7 +181,7 @@ func buildQuery(o *Obligation, extra []string) string {
 	for _, e := range extra {
 		sb.WriteString(e + "\n")
 	}
-	for _, f := range unfoldRec(all) {
+	for _, f := range unfolded {
 		sb.WriteString("(assert ")
 		f.write(&sb)
 		sb.WriteString(")\n")
@@ -408,7 +409,7 @@ func proveLemmas(th *Theory, timeout time.Duration) []solveResult {
 // (empty, cons and snoc forms and the length), supplied by the generator instead of self-triggering axioms.
 func unfoldRec(ts []*Term) []*Term {
 	seen := map[*Term]bool{}
-	var reps []*Term
+	var reps, tsers []*Term
 	var walk func(t *Term)
 	walk = func(t *Term) {
 		if seen[t] {
@@ -417,6 +418,9 @@ func unfoldRec(ts []*Term) []*Term {
 		seen[t] = true
 		if t.Op == "app" && t.Name == "rep" {
 			reps = append(reps, t)
+		}
+		if t.Op == "app" && t.Name == "tser" {
+			tsers = append(tsers, t)
 		}
 		for _, a := range t.Args {
 			walk(a)
@@ -447,6 +451,51 @@ func unfoldRec(ts []*Term) []*Term {
 		out = append(out, Implies(Lt(lo, hi), Eq(rr, Cat(first, App("rep", SBytes, D, w, Add(lo, IntLit(1)), hi)))))
 		out = append(out, Implies(Lt(lo, hi), Eq(rr, App("cat", SBytes, App("rep", SBytes, D, w, lo, Sub(hi, IntLit(1))), last))))
 		out = append(out, Eq(App("len", SInt, rr), Mul(w, Max(Sub(hi, lo), IntLit(0)))))
+	}
+	// tser(T, L, V, ord, lo, hi): serialisation of the map entries ord[lo..hi) as tag/length/value triplets
+	tvals := map[*Term]bool{}
+	for _, r := range tsers {
+		bound := false
+		for _, a := range r.Args {
+			if hasBound(a) {
+				bound = true
+			}
+		}
+		if bound {
+			continue
+		}
+		T, L, V, ord, lo, hi := r.Args[0], r.Args[1], r.Args[2], r.Args[3], r.Args[4], r.Args[5]
+		mkS := func(lo, hi *Term) *Term { return App("tser", SBytes, T, L, V, ord, lo, hi) }
+		trip := func(i *Term) *Term {
+			k := Select(ord, i)
+			tv := App("tval", SBytes, V, L, k)
+			tvals[tv] = true
+			return CatN(BE(16, Select(T, k)), BE(16, Select(L, k)), tv)
+		}
+		rr := mkS(lo, hi)
+		out = append(out, Implies(Ge(lo, hi), Eq(rr, TEps)))
+		consForm := Cat(trip(lo), mkS(Add(lo, IntLit(1)), hi))
+		out = append(out, Implies(Lt(lo, hi), Eq(rr, consForm)))
+		// reading the 4-octet triplet header spans two be16 segments: instances of the take/drop-beyond-first-segment rule (proved in Lean)
+		{
+			k := Select(ord, lo)
+			tv := App("tval", SBytes, V, L, k)
+			hdr := Cat(BE(16, Select(T, k)), BE(16, Select(L, k)))
+			out = append(out, Eq(App("take", SBytes, consForm, IntLit(4)), hdr))
+			out = append(out, Eq(App("drop", SBytes, consForm, IntLit(4)), Cat(tv, mkS(Add(lo, IntLit(1)), hi))))
+		}
+		out = append(out, Implies(Lt(lo, hi), Eq(rr, App("cat", SBytes, mkS(lo, Sub(hi, IntLit(1))), trip(Sub(hi, IntLit(1)))))))
+		// every triplet has at least four octets (by induction on hi-lo; part of the definition's theory)
+		out = append(out, Ge(App("len", SInt, rr), Mul(IntLit(4), Max(Sub(hi, lo), IntLit(0)))))
+	}
+	for tv := range tvals {
+		V, L, k := tv.Args[0], tv.Args[1], tv.Args[2]
+		l := Select(L, k)
+		vk := Select(V, k)
+		out = append(out, Implies(Eq(l, Len(vk)), Eq(tv, vk)))
+		out = append(out, Implies(Lt(l, Len(vk)), Eq(tv, Take(vk, l))))
+		out = append(out, Implies(Gt(l, Len(vk)), Eq(tv, Cat(vk, Zeros(Sub(l, Len(vk)))))))
+		out = append(out, Implies(Ge(l, IntLit(0)), Eq(App("len", SInt, tv), l)))
 	}
 	return out
 }
